@@ -173,8 +173,28 @@ pub fn client_tables_return_to_empty() -> Value {
 					"call_answered": answered, "unsubscribe_sent": unsub_seen, "table_sizes(requests,subscriptions,batches,handlers)": format!("{:?}", sizes)}));
 			}
 		}
+		// H7: the caller gives up (request timeout) before the server accepts; the late acceptance must be answered with an unsubscribe
+		// call, and once that is acknowledged the slot reserved for it is gone (what may remain is the placeholder under the SUBSCRIBE
+		// id: the recorded finding of H1, not counted again here)
+		{
+			let (c, mut peer) = mock::client(ClientBuilder::default().request_timeout(std::time::Duration::from_millis(60)));
+			let r = c.subscribe::<u64, _>("sub", rpc_params![], "unsub").await;
+			let req = peer.next().await.unwrap();
+			peer.send(&json!({"jsonrpc":"2.0","id":id_of(&req),"result":"S7"}).to_string());
+			let unsub = peer.next().await;
+			if let Some(u) = &unsub {
+				peer.send(&json!({"jsonrpc":"2.0","id":id_of(u),"result":true}).to_string());
+			}
+			mock::settle().await;
+			let sizes = c.verif_table_sizes();
+			let names_s7 = unsub.as_ref().map_or(false, |u| u.contains("\"unsub\"") && u.contains("S7"));
+			if r.is_ok() || !names_s7 || sizes.0 > 1 || (sizes.1, sizes.2, sizes.3) != (0, 0, 0) {
+				failures.push(json!({"history":"subscribe; the caller times out; the server accepts 'S7' afterwards", "subscribe_ok": r.is_ok(),
+					"unsubscribe_sent": unsub, "table_sizes(requests,subscriptions,batches,handlers)": format!("{:?}", sizes)}));
+			}
+		}
 		if failures.is_empty() {
-			json!({"probe":"client_tables_return_to_empty","disagrees":false,"histories_tried":6})
+			json!({"probe":"client_tables_return_to_empty","disagrees":false,"histories_tried":7})
 		} else {
 			json!({"probe":"client_tables_return_to_empty","disagrees":true,"input":failures,"expected":"all four tables empty: (0, 0, 0, 0)",
 				"observed": "residual entries (see input[*].table_sizes)"})
